@@ -250,6 +250,7 @@ type oracle struct {
 	phase      string            // suffix of the state kind in signatures
 	trace      []string
 	violations int
+	fired      map[string]string // base signature -> phase in which it fired first
 }
 
 func newOracle(r *ev.Run, w *world, h history, info caseInfo) *oracle {
@@ -306,9 +307,42 @@ func (o *oracle) replay() caseInfo {
 	return c
 }
 
+// sigKind coarsens a crash-state kind for signatures: how many bytes were zeroed and whether the
+// receive also rolled the pack over do not make a different defect.
+func sigKind(kind string) string {
+	switch kind {
+	case "remove-header-zero-partial", "remove-header-zeroed":
+		return "remove-zeroed"
+	case "pl-remove-zero-partial-only":
+		return "pl-remove-zeroed-only"
+	case "full-noindex-rolled":
+		return "full-noindex"
+	case "full-indexed-rolled":
+		return "full-indexed"
+	}
+	return kind
+}
+
+// violation reports sig for the current crash-state kind and phase.  A failure that was already
+// reported for this case in an earlier phase is the same observation persisting and is not
+// reported again under the later phase's name.  States that only a power loss can produce (the
+// separately counted variant) live under the "power-loss/" signature prefix.
 func (o *oracle) violation(sig, what string) {
 	o.violations++
-	o.r.Violation(sig+"/"+o.kind(), fmt.Sprintf("[%s %s %s/%s%s] %s", o.info.Store, o.info.CaseID, o.info.Kind, o.info.Off, o.phase, what), o.replay())
+	kind := sigKind(o.info.Kind)
+	if strings.HasPrefix(kind, "pl-") {
+		sig, kind = "power-loss/"+sig, strings.TrimPrefix(kind, "pl-")
+	}
+	base := sig + "/" + kind
+	if o.fired == nil {
+		o.fired = map[string]string{}
+	}
+	if ph, ok := o.fired[base]; ok && ph != o.phase {
+		o.r.Count("violations_persisting_into_later_phase", 1)
+		return
+	}
+	o.fired[base] = o.phase
+	o.r.Violation(base+o.phase, fmt.Sprintf("[%s %s %s/%s%s] %s", o.info.Store, o.info.CaseID, o.info.Kind, o.info.Off, o.phase, what), o.replay())
 }
 
 func (o *oracle) logf(format string, a ...any) {
@@ -326,6 +360,12 @@ func (o *oracle) reporter(label string) func(sig, what string) {
 			op = rest[i+1:]
 		}
 		reindexed := strings.HasSuffix(label, "-reindexed")
+		if op == "subfetch" {
+			op = "fetch" // same view: a range of the fetch
+		}
+		if class == "enum-paging" && strings.HasSuffix(what, " 0 times") {
+			class = "enum-missing"
+		}
 		var out string
 		switch class {
 		case "present-missing", "enum-missing":
